@@ -14,6 +14,7 @@ import (
 	"strconv"
 	"strings"
 	"time"
+	"unicode/utf8"
 
 	"golang.org/x/tools/go/ssa"
 )
@@ -115,7 +116,11 @@ func (ck *Check) entails(rule, key string, in ssa.Instruction, pc, required *For
 
 func trunc(s string) string {
 	if len(s) > 1500 {
-		return s[:1500] + " …"
+		cut := 1500
+		for cut > 0 && !utf8.RuneStart(s[cut]) {
+			cut--
+		}
+		return s[:cut] + " …"
 	}
 	return s
 }
@@ -499,4 +504,5 @@ func resetInterned() {
 	boolfStore = map[string]*Formula{}
 	linTermOf = map[string]*Term{}
 	nonNilCache = map[string]bool{}
+	existsStore = map[string]*Formula{}
 }
